@@ -93,6 +93,11 @@ Inductive c10_case :=
 Definition lookup_detect (tab : list (bytes * bytes)) (k : bytes) : bytes :=
   match find (fun e => bytes_eqb (fst e) k) tab with Some e => snd e | None => [] end.
 
+(* the same for the sniffing buffer of an upload: the table is keyed by the file content, the
+   code looks at the zero-padded 512-byte buffer *)
+Definition lookup_detect_pad (tab : list (bytes * bytes)) (k : bytes) : bytes :=
+  match find (fun e => bytes_eqb (pad512 (fst e)) k) tab with Some e => snd e | None => [] end.
+
 Definition part_eqb (a b : part) : bool :=
   match a, b with
   | PField k v, PField k' v' => bytes_eqb k k' && bytes_eqb v v'
@@ -123,7 +128,7 @@ Definition c10_check (cs : c10_case) : bool :=
   match cs with
   | RunCase c cops rops s script d hkeys o =>
       let ro := effective_ropt (map rop_of cops) (map rop_of rops) in
-      let r := run (fun _ => d) c ro s script in
+      let r := run_exec (fun _ => d) c do_resets_attempt ro s script in
       list_eqb (wire_eqb hkeys) (res_wires r) (ob_wires o) &&
       list_eqb call_eqb (res_conds r) (ob_conds o) &&
       list_eqb call_eqb (res_hooks r) (ob_hooks o) &&
@@ -141,7 +146,7 @@ Definition c10_check (cs : c10_case) : bool :=
       (backoff mn mx a (d - backoff_half mn mx a) =? d)%Z
   | UploadCase retryable chunked cform rform fs dtab o failed upfront =>
       let n := (length o + (if failed then 1 else 0))%nat in
-      let r := mp_run file_read (lookup_detect dtab) retryable chunked n (add_values cform rform) fs in
+      let r := mp_run file_read (lookup_detect_pad dtab) retryable chunked n (add_values cform rform) fs in
       list_eqb (fun a b => list_eqb part_eqb (fst a) (fst b) && Bool.eqb (snd a) (snd b)) (fst (fst r)) o &&
       Bool.eqb (snd (fst r)) failed && Bool.eqb (snd r) upfront
   | GroupCase cops cviews hops hviews =>
